@@ -17,6 +17,7 @@ RULE = (
     "Programs are import sequences over the 12 modules of the package, each run in one fresh interpreter "
     "(python -S, PYTHONPATH = the tree under test): ALL 12 first imports and ALL 132 ordered pairs "
     "(exhaustive every run) in both client spellings ('import chartparse.x' and 'from chartparse import x'), "
+    "star imports of every module, "
     "the README's from-import forms and from-imports of public classes as first statement, and Hypothesis-drawn longer permutations (quick 48, thorough 1000+). After the "
     "program's own imports the remaining modules are imported in a canonical order, so every program is "
     "a full import order with the given prefix. Oracle: every import succeeds (exception text "
@@ -161,6 +162,10 @@ def exhaustive_programs():
     progs += [[f"from chartparse import {a}", f"from chartparse import {b}"] for a, b in itertools.permutations(MODULES, 2)]
     progs += [[f"import chartparse.{a}", f"from chartparse import {b}"] for a, b in itertools.permutations(MODULES, 2)
               if (MODULES.index(a) + MODULES.index(b)) % 4 == 0]
+    # star imports (what a module exports through __all__ / its public names must exist)
+    progs += [[f"from chartparse.{m} import *"] for m in MODULES]
+    progs += [[f"from chartparse.{a} import *", f"from chartparse.{b} import *"]
+              for a, b in itertools.permutations(MODULES, 2) if (MODULES.index(a) * 5 + MODULES.index(b)) % 6 == 0]
     progs += [
         ["from chartparse.chart import Chart", "from chartparse.instrument import Instrument, Difficulty"],
         ["from chartparse.instrument import Instrument, Difficulty", "from chartparse.chart import Chart"],
